@@ -229,6 +229,13 @@ def jobs(tier):
             for oi in range(len(OPS)):
                 out.append({"harness": "confine", "params": {"flavour": f, "variant": v, "nops": 1 if q else 2, "slots": 2 if q else 1, "first": [side, oi]},
                             "label": "%s/%s/first=%d:%s" % (f, v, side, "-".join(str(x) for x in OPS[oi] if x))})
+    if q:
+        # two-operation families around the boundary: something moves out while the peer (or the same side) touches it
+        for f in ("oid",):
+            for side in (0, 1):
+                for oi in (9, 11, 13):
+                    out.append({"harness": "confine", "params": {"flavour": f, "variant": "by-path", "nops": 2, "slots": 1, "first": [side, oi]},
+                                "label": "%s/by-path/2-ops/first=%d:%s" % (f, side, "-".join(str(x) for x in OPS[oi] if x))})
     out.append({"harness": "confine~no-boundary", "params": {"flavour": "oid", "variant": "by-path", "nops": 1, "slots": 1, "first": [0, 6]},
                 "label": "confine~no-boundary", "role": "sens"})
     return out
